@@ -129,12 +129,12 @@ enum Item { Origin(Name), Ttl(u32), Rec(Rec) }
 #[derive(Clone, Copy, Default, Debug)]
 struct Layout {
     comments: bool, blank: bool, parens: bool, spacing: bool, crlf: bool,
-    quote: bool, escape: bool, relname: bool, at: bool,
+    quote: bool, escape: bool, relname: bool, at: bool, at_rdata: bool,
     inh_owner: bool, inh_ttl: bool, inh_class: bool, ctr_order: bool,
 }
 
-const REWRITES: [&str; 13] = ["comments", "blank_lines", "parens", "spacing", "crlf", "quoted",
-    "escaped", "relative_name", "at_origin", "inherit_owner", "inherit_ttl", "inherit_class", "class_ttl_order"];
+const REWRITES: [&str; 14] = ["comments", "blank_lines", "parens", "spacing", "crlf", "quoted",
+    "escaped", "relative_name", "at_origin", "inherit_owner", "inherit_ttl", "inherit_class", "class_ttl_order", "at_origin_rdata"];
 
 fn layout_of(i: usize) -> Layout {
     let mut l = Layout::default();
@@ -143,8 +143,9 @@ fn layout_of(i: usize) -> Layout {
         4 => l.crlf = true, 5 => l.quote = true, 6 => l.escape = true, 7 => l.relname = true,
         8 => l.at = true, 9 => l.inh_owner = true, 10 => l.inh_ttl = true, 11 => l.inh_class = true,
         12 => l.ctr_order = true,
+        13 => l.at_rdata = true,
         _ => l = Layout { comments: true, blank: true, parens: true, spacing: true, crlf: true, quote: true,
-                 escape: true, relname: true, at: true, inh_owner: true, inh_ttl: true, inh_class: true, ctr_order: true },
+                 escape: true, relname: true, at: true, at_rdata: false, inh_owner: true, inh_ttl: true, inh_class: true, ctr_order: true },
     }
     l
 }
@@ -168,11 +169,11 @@ fn put_octet(o: &mut Vec<u8>, b: u8, quoted: bool, in_name: bool, fancy: Option<
     }
 }
 
-fn put_name(o: &mut Vec<u8>, n: &Name, origin: &Option<Name>, l: &Layout, r: &mut Rng) {
+fn put_name(o: &mut Vec<u8>, n: &Name, origin: &Option<Name>, l: &Layout, r: &mut Rng, owner: bool) {
     let quoted = l.quote && r.chance(1, 2);
     // '@' for the origin itself
     if let Some(org) = origin {
-        if l.at && n == org && r.chance(2, 3) {
+        if (if owner { l.at } else { l.at_rdata }) && n == org && r.chance(2, 3) {
             if quoted { o.extend_from_slice(b"\"@\""); } else { o.push(b'@'); }
             return;
         }
@@ -271,7 +272,7 @@ fn render(items: &[Item], l: &Layout, r: &mut Rng) -> Vec<u8> {
                 sep(&mut o, l, r, false);
                 // the argument of $ORIGIN is written absolute
                 let none = None;
-                put_name(&mut o, n, &none, l, r);
+                put_name(&mut o, n, &none, l, r, false);
                 eol(&mut o, l, r);
                 origin = Some(n.clone());
             }
@@ -288,7 +289,7 @@ fn render(items: &[Item], l: &Layout, r: &mut Rng) -> Vec<u8> {
                 let blank_owner = l.inh_owner && last_owner.as_ref() == Some(&rec.owner) && r.chance(2, 3);
                 if !blank_owner {
                     let mut t = Vec::new();
-                    put_name(&mut t, &rec.owner, &origin, l, r);
+                    put_name(&mut t, &rec.owner, &origin, l, r, true);
                     toks.push(t);
                 }
                 let inherited = dollar_ttl.or(stated_ttl);
@@ -310,7 +311,7 @@ fn render(items: &[Item], l: &Layout, r: &mut Rng) -> Vec<u8> {
                 for f in &rec.fields {
                     let mut t = Vec::new();
                     match f {
-                        Field::Name(n) => put_name(&mut t, n, &origin, l, r),
+                        Field::Name(n) => put_name(&mut t, n, &origin, l, r, false),
                         Field::Int(i) => t.extend_from_slice(i.to_string().as_bytes()),
                         Field::Str(s) => put_str(&mut t, s, l, r, true),
                         Field::Word(w) => t.extend_from_slice(w.as_bytes()),
@@ -491,7 +492,7 @@ fn main() {
             }
             _ => {
                 let z = gen_zone(&mut r);
-                let l = layout_of(r.below(15) as usize);
+                let l = layout_of(r.below(16) as usize);
                 let mut d = render(&z, &l, &mut r);
                 mutate(&mut r, &mut d);
                 d
@@ -512,16 +513,16 @@ fn main() {
         if let End::Panic(m) = &e0 { out.check(false, panic_class(m), &cc, m); continue; }
         out.check(e0 == End::Eof && v0.len() == nrec, "wellformed_rejected", &cc, &obs(&v0, &e0));
         if e0 != End::Eof { continue; }
-        for k in 0..14 {
+        for k in 0..15 {
             let l = layout_of(k);
             let alt = render(&z, &l, &mut r);
             if alt == canon { continue; }
             let c = format!("read {} vs {}", hex(&alt), hex(&canon));
             out.begin(&c);
             let (v1, e1, _) = read_all(&alt);
-            out.oracle_case(&c, true, if k < 13 { REWRITES[k] } else { "mixed" });
+            out.oracle_case(&c, true, if k < 14 { REWRITES[k] } else { "mixed" });
             if let End::Panic(m) = &e1 { out.check(false, panic_class(m), &c, m); continue; }
-            let class = format!("layout_dependent_{}", if k < 13 { REWRITES[k] } else { "mixed" });
+            let class = format!("layout_dependent_{}", if k < 14 { REWRITES[k] } else { "mixed" });
             out.check(v1 == v0 && e1 == e0, &class, &c, &format!("{} <> {}", obs(&v1, &e1), obs(&v0, &e0)));
         }
     }
